@@ -146,7 +146,7 @@ package transaction
 //@ func MeasureBytesOfData(rev, data) (n, err)
 //@   trusted
 //@   pure
-//@ spec v3Cost(tx, price) = big(addr(tx.StepLimit.Int)) * price + (tx.Value != nil ? big(addr(tx.Value.Int)) : 0)
+//@ spec v3Cost(tx, price) = bigmul(big(addr(tx.StepLimit.Int)), price) + (tx.Value != nil ? big(addr(tx.Value.Int)) : 0)
 //@ spec v3Value(tx) = (tx.Value != nil ? big(addr(tx.Value.Int)) : 0)
 //@ spec fromAcct(tx, wc) = acct_of(wc, addr_id(txv3_from(ref(tx))))
 //@ spec toAcct(tx, wc) = acct_of(wc, addr_id(txv3_to(ref(tx))))
@@ -154,9 +154,25 @@ package transaction
 //@   arith int
 //@   nosafety
 //@   requires tx != nil && wc != nil
-//@   modifies ghost(bal)
+//@   modifies ghost(bal), ghost(bal_stale)
 //@   ensures [affordable] err == nil ==> old(ghost(bal))[fromAcct(tx, wc)] >= v3Cost(tx, wc_price(wc)) && wc_price(wc) >= 0
 //@   ensures [unchanged] err != nil || !update ==> ghost(bal) == old(ghost(bal))
 //@   ensures [transfer] err == nil && update && fromAcct(tx, wc) != toAcct(tx, wc) ==> ghost(bal)[fromAcct(tx, wc)] == old(ghost(bal))[fromAcct(tx, wc)] - v3Cost(tx, wc_price(wc)) && (tx.Value != nil ==> ghost(bal)[toAcct(tx, wc)] == old(ghost(bal))[toAcct(tx, wc)] + v3Value(tx))
 //@   ensures [self] err == nil && update && fromAcct(tx, wc) == toAcct(tx, wc) ==> ghost(bal)[fromAcct(tx, wc)] == old(ghost(bal))[fromAcct(tx, wc)] - v3Cost(tx, wc_price(wc)) + v3Value(tx)
 //@   ensures [others] forall a iface :: {ghost(bal)[a]} a != fromAcct(tx, wc) && a != toAcct(tx, wc) ==> ghost(bal)[a] == old(ghost(bal))[a]
+
+// ---------------------------------------------------------------------------
+// C15: charging the fee: between a roll-back of the world state (Context.Reset) and the write-back of
+// the sender's balance, the balance is read again (ghost flag bal_stale: set by Reset, cleared by
+// GetBalance, must be clear at SetBalance and at every loop head)
+// ---------------------------------------------------------------------------
+//@ property C15
+//@ func (th *transactionHandler) Execute(ctx, wcs, estimate) (rct, err)
+//@   arith int
+//@   nosafety
+//@   modifies *
+//@   opt no-callee-pre
+//@   opt inline-none
+//@   requires th != nil && ctx != nil
+//@   callpre SetBalance: !ghost(bal_stale)
+//@   loop 0: invariant !ghost(bal_stale)
